@@ -29,6 +29,39 @@ def known_f3_applies(exe):
     return _f3['v']
 
 
+_f5 = {}
+
+
+def max_orth(exe, line):
+    """largest |V'BV - I| seen at any factorization / restart event of the history (Krylov observer)"""
+    rc, r = run_hist(exe, [line + ' kry=1'])
+    worst = 0.0
+    try:
+        for st_ in r[0]['steps']:
+            for e in st_.get('events', []):
+                if len(e) > 6 and isinstance(e[6], dict):
+                    worst = max(worst, e[6].get('orth', 0.0))
+    except Exception:
+        return 0.0
+    return worst
+
+
+def known_f5_applies(exe, cls, line):
+    """F5: general solver whose Krylov basis lost orthonormality during the run (residual collapsed to rounding level by
+    exact shifts that had converged); absorbs a failing history only if that mechanism is observed in it AND the listed
+    witness still fails"""
+    if cls not in GEN:
+        return False
+    kf = [f for f in load_known().get('findings', []) if f.get('id') == 'F5']
+    if not kf:
+        return False
+    if 'w' not in _f5:
+        _f5['w'] = max_orth(exe, kf[0]['witness']) > 1e-6
+    if not _f5['w']:
+        return False
+    return max_orth(exe, line) > 1e-8
+
+
 def predicate(cls, n, nev, ncv, step):
     f = []
     if step.get('skipped') or step['threw'] or not step['op'].startswith('C') or 'resid' not in step:
@@ -113,6 +146,12 @@ def run(ck, replay=None, pid=PID, classes=CLASSES_HERE, pred=None, what=WHAT, wa
                     for msg in contract_violations(step, cls, nev, ncv):
                         con_bad.append((line, '%s: %s' % (step['op'], msg)))
             ck.count(line, got_pair)
+            mine = [b for b in badp if b[0] == line]
+            if mine and known_f5_applies(exe, cls, line):
+                badp = [b for b in badp if b[0] != line]
+                m5 = 'F5 general solver: exact shifts that have converged collapse the restarted residual to rounding level, the basis loses orthonormality and garbage is reported as converged (witness: GenEigsRealShiftSolver n=8 nev=1 ncv=4 gnormal mseed=419506 SmallestMagn: returned vector V y has norm 3e-11)'
+                if m5 not in ck.known_hits:
+                    ck.known_hits.append(m5)
         ck.oblige('property predicate on every compute() of %d histories (%d returned pairs): %s' % (len(cases), npairs, what), not badp,
                   'history `%s` -> %s' % badp[0] if badp else '')
         ck.oblige('C-trace: kernel contracts assumed by the driver theorems hold at every hook event', not con_bad,
